@@ -56,6 +56,7 @@ type rngContract struct {
 	Kind string `json:"kind"` // dice | range | random
 	A    int64  `json:"a"`
 	B    int64  `json:"b"`
+	Den  int64  `json:"den"` // the bounds are A/Den and B/Den (0 means 1): random_range(0.5, 1.5) is A=1 B=3 Den=2
 }
 
 type rngCase struct {
@@ -74,6 +75,7 @@ type rngDraw struct {
 	Kind string `json:"kind"`
 	A    int64  `json:"a"`
 	B    int64  `json:"b"`
+	Den  int64  `json:"den"` // bounds in units of 1/Den
 	V    int64  `json:"v"`   // dice/range: the value; random: floor(v * 2^30)
 	OK   bool   `json:"ok"`  // false: not an integer / not a finite number / not a number at all
 	Tok  string `json:"tok"` // exact value as an opaque token
@@ -150,7 +152,10 @@ func rngNumTok(v float64) string {
 var rngInlineRE = regexp.MustCompile(`([a-z][0-9]+)=<([^<>]*)>`)
 
 func rngDrawOf(name string, c rngContract, num *float64, text string) rngDraw {
-	d := rngDraw{Var: name, Kind: c.Kind, A: c.A, B: c.B, Tok: text}
+	d := rngDraw{Var: name, Kind: c.Kind, A: c.A, B: c.B, Den: c.Den, Tok: text}
+	if d.Den == 0 {
+		d.Den = 1
+	}
 	if num == nil {
 		return d // not a number: OK stays false
 	}
@@ -415,8 +420,38 @@ func (g *rngGen) rangeAB() (int64, int64) {
 	return a, a + int64(g.rnd.Intn(30))
 }
 
+func floorDiv4(q int64) int64 {
+	if q >= 0 {
+		return q / 4
+	}
+	return -((-q + 3) / 4)
+}
+
+func ceilDiv4(q int64) int64 { return -floorDiv4(-q) }
+
 // an expression that draws once and whose value is observable; returns text and contract
 func (g *rngGen) drawExpr() (string, rngContract) {
+	if g.rnd.Intn(6) == 0 {
+		// bounds that are not whole numbers: the value is still an integer between them
+		// (random_range(0.5, 1.5) can only be 1, dice(2.5) is 1 or 2)
+		frac := func(q int64) string { // q quarters
+			s := ""
+			if q < 0 {
+				s, q = "-", -q
+			}
+			return s + strconv.FormatInt(q/4, 10) + []string{"", ".25", ".5", ".75"}[q%4]
+		}
+		if g.rnd.Intn(3) == 0 {
+			n := int64(4 + g.rnd.Intn(40)) // 1 <= n/4
+			return "dice(" + frac(n) + ")", rngContract{Kind: "dice", A: 4, B: n, Den: 4}
+		}
+		a := int64(g.rnd.Intn(81) - 40)
+		b := a + int64(g.rnd.Intn(24))
+		for ceilDiv4(a) > floorDiv4(b) { // at least one integer lies between the bounds
+			b++
+		}
+		return "random_range(" + frac(a) + ", " + frac(b) + ")", rngContract{Kind: "range", A: a, B: b, Den: 4}
+	}
 	switch g.rnd.Intn(5) {
 	case 0, 1:
 		n := g.diceN()
